@@ -151,12 +151,24 @@ def m_s_erase(it, a):
 def _conc(bs):
     if any(is_sym(b) for b in bs): raise Unsupported('symbolic byte in string search')
     return bytes(b & 0xff for b in bs)
+def _beq(it, x, y):
+    """byte equality; a symbolic byte is decided by forking (the path condition then pins or excludes the value)"""
+    if is_sym(x) or is_sym(y): return it.branch(it.I(x) == it.I(y))
+    return (x & 0xff) == (y & 0xff)
+def _find(it, hay, needle, pos):
+    if not needle: return pos if pos <= len(hay) else NPOS
+    for i in range(pos, len(hay) - len(needle) + 1):
+        if all(_beq(it, hay[i + j], needle[j]) for j in range(len(needle))): return i
+    return NPOS
 def m_s_find_c(it, a):
-    this, c, pos = a; i = _conc(sget(it, this)).find(bytes([c & 0xff]), pos); return NPOS if i < 0 else i
+    this, c, pos = a; return _find(it, sget(it, this), [c], pos)
 def m_s_find_s(it, a):
-    this, s, pos, n = a; i = _conc(sget(it, this)).find(_conc(rd(it, s, n)), pos); return NPOS if i < 0 else i
+    this, s, pos, n = a; return _find(it, sget(it, this), rd(it, s, n), pos)
 def m_s_rfind_c(it, a):
-    this, c, pos = a; b = _conc(sget(it, this)); i = b.rfind(bytes([c & 0xff]), 0, None if pos == NPOS else pos + 1); return NPOS if i < 0 else i
+    this, c, pos = a; b = sget(it, this)
+    for i in range(min(len(b) - 1, len(b) - 1 if pos == NPOS else pos), -1, -1):
+        if _beq(it, b[i], c): return i
+    return NPOS
 def m_s_compare(it, a):
     this, o = a; x = sget(it, this); y = sget(it, o)
     for p, q in zip(x, y):
